@@ -89,6 +89,8 @@ def sh(cmd, timeout=600, cwd=None, env=None):
 def ensure_build():
     """Bring the Coq development up to date (no-op when it is). Serialised by a lock."""
     os.makedirs(BUILD, exist_ok=True)
+    if os.environ.get("VERIF_SKIP_MAKE"):   # development only: files were compiled by hand
+        return True, "skipped"
     lock = os.path.join(BUILD, ".lock")
     mk = os.path.join(COQ, "Makefile")
     cmd = f"cd {COQ} && " + ("" if os.path.exists(mk) else "coq_makefile -f _CoqProject -o Makefile >/dev/null && ") + \
